@@ -14,7 +14,8 @@ RULE = ("trees / single files as in C02; pairs (TorrentAssembler v2, TorrentFile
 
 
 def run_case(run, drv, files, pl, single, tag):
-    case = {"files": [(rel, b.token()) for rel, b in files], "pl": pl, "single": single,
+    case = {"links": cr.links(files),
+            "files": [(rel, b.token()) for rel, b in files], "pl": pl, "single": single,
             "gen": tag}
     with sandbox("c10") as box:
         root, name = cr.materialize(box, files, single)
@@ -71,7 +72,7 @@ def run(tier, seed, replay=None):
 
     def still_fails(c):
         probe = Run("C10", tier, seed, RULE)
-        files = [(rel, cr.blob_from_token(t)) for rel, t in c["files"]]
+        files = cr.files_of_case(c)
         run_case(probe, Driver(), files, c["pl"], c["single"], "shrink")
         return any(f.kind == "impl-vs-spec" for f in probe.failures)
     run.shrinker = still_fails
@@ -80,7 +81,7 @@ def run(tier, seed, replay=None):
         if c.get("scaled"):
             scaled_sweep(run, drv, "quick")
             return run.finish()
-        files = [(rel, cr.blob_from_token(t)) for rel, t in c["files"]]
+        files = cr.files_of_case(c)
         run_case(run, drv, files, c["pl"], c["single"], "replay")
         settle_model(run, drv)
         return run.finish()
